@@ -274,3 +274,64 @@ M("c10_new_uses_unaligned_granted_size", ["C10"], ["C10.R5"], [
     ("src/raw_bump.rs", "let size = ChunkSize::<A, S>::align_allocation_size(size);", "let size = size & !15;")])
 M("c10_align_to_wrong_gate", ["C10"], ["C10.R1"], [
     ("src/raw_bump.rs", "if MinimumAlignment::VALUE > S::MIN_ALIGN {", "if MinimumAlignment::VALUE != 0 {")])
+
+# ---------------------------------------------------------------- C03
+M("c03_scoped_aligned_align_before_guard", ["C03"], ["C03.R2"], [
+    ("src/traits/bump_allocator.rs", """        let mut guard = self.scope_guard();
+        let scope = guard.scope();
+        scope.raw.align::<NEW_MIN_ALIGN>();""", """        self.as_mut_scope().raw.align::<NEW_MIN_ALIGN>();
+        let mut guard = self.scope_guard();
+        let scope = guard.scope();""")])
+M("c03_scoped_forgets_guard_on_unwind", ["C03"], ["C03.R2"], [
+    ("src/traits/bump_allocator.rs", """        let mut guard = self.scope_guard();
+        f(guard.scope())
+    }""", """        let mut guard = core::mem::ManuallyDrop::new(self.scope_guard());
+        let r = f(guard.scope());
+        unsafe { core::mem::ManuallyDrop::drop(&mut guard) };
+        r
+    }""")])
+M("c03_try_with_mut_err_no_rewind", ["C03"], ["C03.R6"], [
+    ("src/bump_scope.rs", """                    let error = error.read();
+                    self.reset_to(checkpoint);
+                    error""", """                    let error = error.read();
+                    let _ = checkpoint;
+                    error""")])
+M("c03_try_with_checkpoint_after_alloc", ["C03"], ["C03.R6"], [
+    ("src/bump_scope.rs", """        let checkpoint_before_alloc = self.checkpoint();
+        let uninit = self.generic_alloc_uninit::<B, Result<T, E>>()?;""", """        let uninit = self.generic_alloc_uninit::<B, Result<T, E>>()?;
+        let checkpoint_before_alloc = self.checkpoint();""")])
+M("c03_reset_to_pos_only", ["C03"], ["C03.R3"], [
+    ("src/raw_bump.rs", """            checkpoint.reset_within_chunk();
+
+            self.chunk.set(RawChunk {
+                header: checkpoint.chunk.cast(),
+                marker: PhantomData,
+            });""", """            checkpoint.reset_within_chunk();
+
+            if self.chunk.get().header.cast() == checkpoint.chunk { return; }
+            if checkpoint.address.get() % 2 == 0 { return; }
+            self.chunk.set(RawChunk {
+                header: checkpoint.chunk.cast(),
+                marker: PhantomData,
+            });""")])
+M("c03_guard_drop_does_nothing_when_no_alloc", ["C03"], ["C03.R2"], [
+    ("src/bump_scope_guard.rs", """    fn drop(&mut self) {
+        self.reset();
+    }""", """    fn drop(&mut self) {
+        let _ = &self.checkpoint;
+    }""")])
+M("c03_reset_to_start_resets_current_only", ["C03"], ["C03.R3"], [
+    ("src/raw_bump.rs", """            while let Some(prev) = chunk.prev() {
+                chunk = prev;
+            }
+
+            chunk.reset();""", """            if let Some(prev) = chunk.prev() {
+                chunk = prev;
+            }
+
+            chunk.reset();""")])
+M("c03_guard_reset_frees_later_chunks", ["C03"], ["C03.R4"], [
+    ("src/bump_scope_guard.rs", """        unsafe { self.bump.reset_to(self.checkpoint) }""", """        unsafe { self.bump.reset_to(self.checkpoint) }
+        if self.bump.stats().count() > 8 { self.bump.reset(); }""")])
+M("c03_checkpoint_stores_end_not_pos", ["C03"], ["C03.R1"], [
+    ("src/bump_scope_guard.rs", "let address = chunk.pos().addr();", "let address = unsafe { chunk.header.as_ref().end.addr() };")])
